@@ -22,7 +22,9 @@ type ExtSeqCase struct {
 	Start   string    `json:"start"`   // fresh | onebyte | twobyte | legacy | unmarshal
 	Profile uint16    `json:"profile"` // for legacy
 	Image   *WireCase `json:"image,omitempty"`
-	Ops     []ExtOp   `json:"ops"`
+	// Earlier: images decoded into the SAME Header before Image (a receive loop reusing one Header); they must not matter
+	Earlier []WireCase `json:"earlier,omitempty"`
+	Ops     []ExtOp    `json:"ops"`
 }
 
 var subC05 = register("C05", "extmap", checkC05)
@@ -98,6 +100,12 @@ func checkC05(r *run, c *ExtSeqCase) (CaseInfo, error) {
 		img, _, _, err := c.Image.image()
 		if err != nil {
 			return ci, failf("reference builder: %v", err)
+		}
+		for k := range c.Earlier {
+			if e, _, _, err := c.Earlier[k].image(); err == nil {
+				_, _ = h.Unmarshal(e)
+				ci.class("start:unmarshal-into-used-header")
+			}
 		}
 		if _, err := h.Unmarshal(img); err != nil {
 			return ci, failf("well-formed start image rejected: %v (%s)", err, hx(img))
@@ -295,6 +303,11 @@ func genExtSeqCase(t *rapid.T) *ExtSeqCase {
 		if c.Image.Model.ExtKind == "legacy" && len(c.Image.Model.Exts[0].Val) > 64 {
 			c.Image.Model.Exts[0].Val = c.Image.Model.Exts[0].Val[:64]
 		}
+		if genBool(t, "usedheader") {
+			for k, n := 0, rapid.IntRange(1, 2).Draw(t, "nearlier"); k < n; k++ {
+				c.Earlier = append(c.Earlier, *genWireCase(t, false))
+			}
+		}
 	}
 	steps := rapid.IntRange(1, 25).Draw(t, "steps")
 	fillAt := -1 // one case in 60 fills the profile to capacity at some step (expensive: 64 KiB headers)
@@ -339,7 +352,7 @@ func genExtSeqCase(t *rapid.T) *ExtSeqCase {
 	return c
 }
 
-const ruleC05 = "rapid draws a start state (fresh, one-byte preset, two-byte preset, legacy preset with any profile, header decoded from a reference image) and 1-25 operations Set(id 0-255 biased to 0,1,14,15,16,255; value length 0-300 biased to 0,1,16,17,255,256)/Del/Get/Wire(Marshal, with or without payload bytes behind the header, Unmarshal, optionally continue on the decoded header)/Fill(set 14-255 consecutive ids with values of up to 255 bytes: the profile filled to capacity, extension blocks up to 65536 bytes); oracle: ordered-map model that follows the return values (nil => applied, error => header observably unchanged incl. Marshal bytes), no panic, every accepted value survives the wire, Marshal may refuse only a legacy value that is not whole words. Non-trivial = sequence with an accepted Set, a replacing Set or effective Del, and a successful Wire after them; distinct = FNV-64 of the JSON case"
+const ruleC05 = "rapid draws a start state (fresh, one-byte preset, two-byte preset, legacy preset with any profile, header decoded from a reference image - half of the time into a Header that decoded 1-2 other images before) and 1-25 operations Set(id 0-255 biased to 0,1,14,15,16,255; value length 0-300 biased to 0,1,16,17,255,256)/Del/Get/Wire(Marshal, with or without payload bytes behind the header, Unmarshal, optionally continue on the decoded header)/Fill(set 14-255 consecutive ids with values of up to 255 bytes: the profile filled to capacity, extension blocks up to 65536 bytes); oracle: ordered-map model that follows the return values (nil => applied, error => header observably unchanged incl. Marshal bytes), no panic, every accepted value survives the wire, Marshal may refuse only a legacy value that is not whole words. Non-trivial = sequence with an accepted Set, a replacing Set or effective Del, and a successful Wire after them; distinct = FNV-64 of the JSON case"
 
 func TestC05(t *testing.T) {
 	r := begin(t, "C05", "exploration", ruleC05)
